@@ -64,14 +64,15 @@ func (c Case) AllKinds() []string {
 type Determinacy int
 
 const (
-	Undetermined  Determinacy = iota // the bag of rows depends on unspecified order (LIMIT without total order …)
+	Undetermined  Determinacy = iota // nothing comparable: even the number of rows depends on unspecified order
+	CountOnly                        // which rows come back depends on unspecified order (LIMIT without total order …), how many does not
 	BagModuloList                    // the bag is fixed up to the order of elements inside lists (collect)
 	Bag                              // the bag of rows is fixed
 	Sequence                         // the row sequence is fixed (ORDER BY with a total order)
 )
 
 func (d Determinacy) String() string {
-	return [...]string{"undetermined", "bag-modulo-list-order", "bag", "sequence"}[d]
+	return [...]string{"undetermined", "count-only", "bag-modulo-list-order", "bag", "sequence"}[d]
 }
 
 var shuffles = []uint64{0, 1, 0x9e3779b97f4a7c15, 0xc2b2ae3d27d4eb4f}
@@ -79,19 +80,29 @@ var shuffles = []uint64{0, 1, 0x9e3779b97f4a7c15, 0xc2b2ae3d27d4eb4f}
 // Reference evaluates the query under several tie-break orders and reports the reference result
 // together with how much of it is determined.
 func Reference(q *cypher.RegularQuery, g gmodel.Graph, params map[string]any, opts refcypher.Options) (gmodel.Result, Determinacy, error) {
-	var results []gmodel.Result
+	var (
+		results []gmodel.Result
+		obs     refcypher.Observation
+	)
 	for _, s := range shuffles {
 		o := opts
 		o.Shuffle = s
+		var runObs refcypher.Observation
+		o.Observe = &runObs
 		r, err := refcypher.EvalOpt(q, g, params, o)
 		if err != nil {
 			return gmodel.Result{}, Undetermined, err
 		}
 		results = append(results, r)
+		obs.OrderTies = obs.OrderTies || runObs.OrderTies
+		obs.ArbitraryWindow = obs.ArbitraryWindow || runObs.ArbitraryWindow
 	}
 	base := results[0]
-	seq, bag, bagList := true, true, true
+	seq, bag, bagList, count := true, true, true, true
 	for _, r := range results[1:] {
+		if len(r.Rows) != len(base.Rows) {
+			count = false
+		}
 		if !sameSequence(base, r) {
 			seq = false
 		}
@@ -102,14 +113,25 @@ func Reference(q *cypher.RegularQuery, g gmodel.Graph, params map[string]any, op
 			bagList = false
 		}
 	}
+	// The observations are exact for this graph; agreement of a few tie-break orders can be chance (two reversals
+	// cancel, two rows hash into the same order).
+	if obs.ArbitraryWindow {
+		// a SKIP / LIMIT chose among rows whose order openCypher leaves open
+		if count {
+			return base, CountOnly, nil
+		}
+		return base, Undetermined, nil
+	}
 	switch {
-	case seq && HasFinalOrder(q):
+	case seq && HasFinalOrder(q) && !obs.OrderTies:
 		// without a final ORDER BY the reference's own enumeration order means nothing
 		return base, Sequence, nil
 	case bag:
 		return base, Bag, nil
 	case bagList:
 		return base, BagModuloList, nil
+	case count:
+		return base, CountOnly, nil
 	}
 	return base, Undetermined, nil
 }
@@ -183,6 +205,11 @@ func Compare(ref gmodel.Result, det Determinacy, got gmodel.Result) string {
 	case BagModuloList:
 		if a, b := gmodel.BagDiff(SortLists(ref), SortLists(got)); len(a)+len(b) > 0 {
 			return diffText("bags of rows differ (list element order ignored)", ref, got)
+		}
+		return ""
+	case CountOnly:
+		if len(ref.Rows) != len(got.Rows) {
+			return fmt.Sprintf("row count differs (which rows pass SKIP/LIMIT is unspecified, how many is not): reference has %d rows, SQL returned %d rows", len(ref.Rows), len(got.Rows))
 		}
 		return ""
 	}
